@@ -209,6 +209,8 @@ def particle_cases(ctx, rnd, n_per_model):
                 L = min(dec.get_l_list())
                 m = rnd.uniform(m1 + m2 + 0.01, 0.89)
                 val = complex(np.array(part(tf.constant([m], dtype=tf.float64))).reshape(-1)[0])
+                # "below threshold" refers to the decay's ACTUAL daughter masses (create_test_config fixes them), not to mB, mC
+                below = model in ("BWR2", "BWR_below") and float(part.get_mass()) < m1 + m2
             except Exception as e:
                 ctx.count("particle_model_error:%s" % model)
                 ctx.notes.append("model %s raised %r" % (model, e))
@@ -251,7 +253,9 @@ def particle_cases(ctx, rnd, n_per_model):
                 dF = f1(bw.dFun(T(m0v * m0v), T(ma), T(mb))); fs = f1(bw.fsFun(T(m * m), T(m0v * m0v), T(g0v), T(ma), T(mb)))
                 gam = f1(bw.Gamma(T(m), T(g0v), T(q), T(q0), L, T(m0v), T(d)))
                 expr = "GS_from %s %s %s %s %s %s" % (Rq(m), Rq(m0v), Rq(g0v), Rq(dF), Rq(fs), Rq(gam))
-                rt = 1e-8
+                # the particle passes its daughter masses (Python floats) through tf.cast, i.e. rounded to float32 (relative 1e-8,
+                # observation O1, like the pi literal): same tolerance as the GS ingredient functions
+                rt = GS_RTOL
             elif model in ("Flatte", "FlatteC"):
                 gv = [float(g()) for g in part.g_value]
                 chl = "[" + "; ".join("(%s, %s, %s)" % (Rq(c[0]), Rq(c[1]), Rq(g)) for c, g in zip(chs, gv)) + "]"
